@@ -137,6 +137,7 @@ def c12_dump_part(ck, quick):
 def c17(ck):
     quick = ck.tier == "quick"
     util.mc_design(ck, "MC_MemReader", "MC_MemReader", "the three read strategies over [0,R) readable: every start s < R, length 1..20, word size 8; invariants C17, StepwiseIsFunction", workers=4)
+    util.mc_design(ck, "MemReaderHist", "MC_MemReaderHist", "one reader serving every history of <= 3 reads (every start 0..R+1, lengths 1..3) through the /proc/<pid>/mem strategy with the descriptor's offset as state; invariant HistoryIndependent", workers=4)
     ex = core.mc_or_die("MC_MemReader", "MC_MemReader_export", workers=4, timeout=600)
     cases = ex["printed"].get("REPLAY", [])
     if not cases:
